@@ -48,17 +48,47 @@ class T4:
     pass
 
 
-POOL: list[type] = [T0, T1, T1sub, T2, T3, T4]
+class Pool:
+    """The type pool.  Entries 0-5 are plain classes; entries 6-7 are parametrized generics (PEP 585 / PEP 604), for
+    which *every access creates a fresh object* that is equal to, but not identical with, the previous one - as it is
+    when user code writes ``list[int]`` in two places."""
+
+    N_CLASSES = 6
+
+    def __init__(self) -> None:
+        self.classes: list[type] = [T0, T1, T1sub, T2, T3, T4]
+
+    def __len__(self) -> int:
+        return 8
+
+    def __getitem__(self, i: int) -> Any:
+        if i < 6:
+            return self.classes[i]
+        return list[T0] if i == 6 else dict[str, T1]  # type: ignore[valid-type]
+
+    def __iter__(self) -> Any:
+        return (self[i] for i in range(len(self)))
+
+
+POOL = Pool()
 NAMES = ["default", "a", "b"]
 BAD_NAMES = ["", "a b", "a.b", "a:b"]
-for _i, _t in enumerate(POOL):
-    _t.idx = _i  # type: ignore[attr-defined]
+
+
+def tname(t: Any) -> str:
+    return getattr(t, "__name__", None) if isinstance(t, type) else str(t).replace("engines.e1_context.", "")
 
 
 def make_value(type_idx: int, tag: Any) -> Any:
-    v = POOL[type_idx]()
+    # values are always instances of the plain classes (a resource registered under a generic type is registered with
+    # explicit `types`, its value can be anything)
+    v = POOL[type_idx if type_idx < Pool.N_CLASSES else 0]()
     v.tag = tag
     return v
+
+
+class FactoryFailed(Exception):
+    pass
 
 
 class Product:
@@ -96,8 +126,11 @@ def install_dispatch_recorder() -> None:
 
 
 class Actor:
-    def __init__(self, cid: int, ctx: Any) -> None:
+    def __init__(self, cid: int, ctx: Any, in_component: bool = False) -> None:
         self.cid, self.ctx = cid, ctx
+        # the actor's command loop runs inside the start() of a component started in this context, so that
+        # current_context() is a ComponentContext and the module-level shortcuts go through its delegating wrappers
+        self.in_component = in_component
         self.send, self.recv = create_memory_object_stream[Any](1)
         self.entered = anyio.Event()
         self.left = anyio.Event()
@@ -129,6 +162,7 @@ class Engine:
         self.tg: Any = None
         self.active_cid: int | None = None
         self.async_yields = 0
+        self.fail_next: dict[int, int] = {}
         self.last_fail: Any = None
 
     # ---- helpers
@@ -158,7 +192,7 @@ class Engine:
 
     # ---- factories
 
-    def make_factory(self, fid: int, is_async: bool, annotate: Any, async_kind: str = "def") -> Any:
+    def make_factory(self, fid: int, is_async: bool, annotate: Any, async_kind: str = "def", partial: bool = False) -> Any:
         """sync factories count their calls; async factories are plain coroutine functions that count when
         their body starts to run (so a coroutine that is created and closed by the sync API counts 0)"""
         eng = self
@@ -172,6 +206,9 @@ class Engine:
                 eng.factory_calls[fid] = eng.factory_calls.get(fid, 0) + 1
                 for _ in range(eng.async_yields):
                     await checkpoint()
+                if eng.fail_next.get(fid, 0) > 0:
+                    eng.fail_next[fid] -= 1
+                    raise FactoryFailed(f"factory {fid} failed")
                 return produce()
 
             factory: Any = afactory
@@ -193,13 +230,39 @@ class Engine:
             factory = sfactory
         if annotate is not None:
             factory.__annotations__["return"] = annotate
+        if partial:
+            import functools
+
+            factory = functools.partial(factory)
         return factory
 
     # ---- actor
 
     async def actor_main(self, a: Actor) -> None:
+        from asphalt.core import Component, start_component
+
+        async def loop_body() -> None:
+            await self.actor_loop(a)
+
         try:
             async with a.ctx:
+                if a.in_component:
+                    class ActorComponent(Component):
+                        async def start(self_inner) -> None:  # noqa: N805
+                            await loop_body()
+
+                    await start_component(ActorComponent, timeout=None)
+                else:
+                    await loop_body()
+        except BaseException as e:
+            a.exit_exc = e
+        finally:
+            a.entered.set()
+            a.left.set()
+
+    async def actor_loop(self, a: Actor) -> None:
+        if True:
+            if True:
                 async with create_task_group() as ltg:
                     ready = anyio.Event()
 
@@ -223,11 +286,6 @@ class Engine:
                         reply_ev = reply[0]
                         reply_ev.set()
                     ltg.cancel_scope.cancel()
-        except BaseException as e:
-            a.exit_exc = e
-        finally:
-            a.entered.set()
-            a.left.set()
 
     async def call_in(self, cid: int, fn: Any) -> Any:
         """run ``await fn()`` inside the actor task of context cid; returns ("ok", v) | ("exc", e)"""
@@ -297,7 +355,7 @@ class Engine:
             self.bad("announce-missing", f"{cmd}: expected exactly one ResourceEvent {self.fmt_events([e])} but none was dispatched")
 
     def fmt_events(self, evs: list[Any]) -> str:
-        return str([{"ctx": c, "types": [[POOL[t].__name__ for t in alt] for alt in alts], "name": n, "desc": d, "is_factory": f} for c, alts, n, d, f in evs])
+        return str([{"ctx": c, "types": [[tname(POOL[t]) for t in alt] for alt in alts], "name": n, "desc": d, "is_factory": f} for c, alts, n, d, f in evs])
 
     def compare_visible(self, cmd: Any) -> None:
         # get_resources() has no lifecycle guard, so contexts that are constructed but not yet entered are
@@ -308,7 +366,7 @@ class Engine:
                 try:
                     got = ctx.get_resources(T)
                 except Exception as e:
-                    self.bad("scope-get_resources-raised", f"after {cmd}: get_resources({T.__name__}) on context {cid} raised {describe_exc(e)}")
+                    self.bad("scope-get_resources-raised", f"after {cmd}: get_resources({tname(T)}) on context {cid} raised {describe_exc(e)}")
                     continue
                 got_tags = {n: self.tagname(o) for n, o in got.items()}
                 exp = self.model.visible(cid, ti)
@@ -320,7 +378,7 @@ class Engine:
                     kind = f"visible[{cmd['op']}{',gen' if involves_gen else ''}{',other-ctx' if other_ctx else ''}]"
                     if self.last_fail:
                         kind = f"failed-call-changed-state[{'+'.join(sorted(self.last_fail))}]"
-                    self.bad(kind, f"after {cmd}: context {cid} (parent {self.model.ctxs[cid].parent}) sees for {T.__name__}: {got_tags}, "
+                    self.bad(kind, f"after {cmd}: context {cid} (parent {self.model.ctxs[cid].parent}) sees for {tname(T)}: {got_tags}, "
                                    f"the model says {exp} (unexpected/different {extra}, missing {missing})", cmd=cmd)
                     return
         self.inc("visible_set_comparisons")
@@ -352,6 +410,8 @@ class Engine:
                 expected_events = await self.do_race(cmd, calls_before)
             elif op == "race_add":
                 expected_events = await self.do_race_add(cmd, calls_before)
+            elif op == "sibling_seq":
+                expected_events = await self.do_sibling_seq(cmd)
             else:
                 raise ValueError(op)
         finally:
@@ -401,8 +461,10 @@ class Engine:
 
     async def do_enter(self, cmd: dict[str, Any]) -> None:
         cid = cmd["cid"]
-        a = Actor(cid, self.ctx_objs[cid])
+        a = Actor(cid, self.ctx_objs[cid], in_component=bool(cmd.get("in_component")))
         self.actors[cid] = a
+        if a.in_component:
+            self.inc("contexts_driven_through_component_context")
         self.tg.start_soon(self.actor_main, a)
         await a.entered.wait()
         if a.left.is_set():
@@ -503,7 +565,12 @@ class Engine:
             kwargs["types"] = POOL[types[0]]
         else:
             kwargs["types"] = [POOL[t] for t in types]
-        factory = self.make_factory(fid, cmd["is_async"], annotate, cmd.get("async_kind", "def") if annotate is None else "def")
+        factory = self.make_factory(fid, cmd["is_async"], annotate, cmd.get("async_kind", "def") if annotate is None else "def",
+                                    partial=bool(cmd.get("partial")))
+        if cmd.get("partial"):
+            self.inc("partial_factories")
+            if annotate is not None:
+                types = "missing"  # typing.get_type_hints() cannot look through functools.partial: the call must fail
         if cmd["is_async"] and annotate is None:
             self.inc("async_factory_kind_" + cmd.get("async_kind", "def"))
         self.factories[fid] = factory
@@ -561,9 +628,13 @@ class Engine:
 
     async def do_lookup(self, cmd: dict[str, Any], calls_before: dict[int, int]) -> list[Any]:
         cid, api, t, name, optional = cmd["cid"], cmd["api"], cmd["type"], cmd["name"], cmd["optional"]
+        mc = self.model.ctxs[cid]
+        if self.actors[cid].in_component and api in ("async_shortcut", "inject_async") and not optional \
+                and (t, name) not in mc.resources and (t, name) not in mc.factories:
+            # inside a component a non-optional get_resource() of something missing *waits* for it (C06): ask the context itself
+            api = "async"
         sync_api = api in ("nowait", "nowait_shortcut", "inject_sync")
         self.async_yields = cmd.get("yields", 0)
-        mc = self.model.ctxs[cid]
         had = (t, name) in mc.resources
         observed = await self.one_lookup(cid, api, t, name, optional)
         expected, events, generation = self.model.lookup(cid, t, name, optional, sync_api)
@@ -580,7 +651,7 @@ class Engine:
             elif tag in self.objs:
                 if obj is not self.objs[tag]:
                     key = "singleton-different-object" if tag[0] == "gen" else "scope-wrong-object"
-                    self.bad(key, f"{cmd}: context {cid} returned {self.tagname(obj)} for ({POOL[t].__name__}, {name!r}); "
+                    self.bad(key, f"{cmd}: context {cid} returned {self.tagname(obj)} for ({tname(POOL[t])}, {name!r}); "
                                   f"the model (and earlier lookups) say {tag}")
                 elif tag[0] == "gen":
                     self.inc("repeat_lookups_of_generated")
@@ -613,6 +684,11 @@ class Engine:
         ctx = self.ctx_objs[cid]
         T = POOL[t]
         self.async_yields = cmd["yields"]
+        failing = bool(cmd.get("fail_first")) and self.async_yields > 0
+        if failing:
+            # the first generation fails while the other lookups wait for it: they must then share ONE new generation
+            self.fail_next[cmd["fid"]] = 1
+            self.inc("race_cases_with_failing_first_generation")
         results: list[Any] = []
         intervals: list[Any] = []
         clock = [0]
@@ -650,8 +726,10 @@ class Engine:
         if expected[0] == "ok":
             objs = [r[1] for r in results if r[0] == "ok"]
             excs = [r[1] for r in results if r[0] == "exc"]
-            if excs:
-                self.bad("race-lookup-raised", f"{cmd}: a racing lookup raised {describe_exc(excs[0])}", **witness)
+            failed = (1 - self.fail_next.get(cmd.get("fid"), 0)) if failing else 0
+            bad_excs = [e for e in excs if not isinstance(e, FactoryFailed)]
+            if bad_excs or len(excs) > failed:
+                self.bad("race-lookup-raised", f"{cmd}: racing lookups raised {[describe_exc(e) for e in excs]} ({failed} generation(s) were made to fail)", **witness)
             distinct = {id(o) for o in objs}
             tag = expected[1]
             if len(distinct) > 1:
@@ -667,7 +745,7 @@ class Engine:
                         if id(o) not in self.tag_of:
                             self.tag_of[id(o)] = ("extra-product", o.fid, o.serial) if isinstance(o, Product) else repr(o)
                             self.objs[("pin", id(o))] = o
-            if generation is not None:
+            if generation is not None and not failing:
                 fid = generation[0]
                 delta = self.factory_calls.get(fid, 0) - calls_before.get(fid, 0)
                 if delta != 1:
@@ -675,6 +753,15 @@ class Engine:
                              f"{cmd}: factory {fid} was called {delta} times for one context by {len(cmd['pre'])} concurrent lookups", **witness, overlapped=overlapped)
             # later lookup must return the pinned object
             later = await self.one_lookup(cid, "async", t, name, False)
+            if failing:
+                self.fail_next[cmd["fid"]] = 0
+                fid = cmd["fid"]
+                delta = self.factory_calls.get(fid, 0) - calls_before.get(fid, 0)
+                if delta != 1 + failed:
+                    self.bad("race-async-factory-overlap", f"{cmd}: the first generation failed; the factory was then called {delta - failed} more time(s) for this "
+                                                           f"context by the {len(cmd['pre'])} concurrent lookups and the follow-up lookup (expected exactly 1)", **witness)
+                if tag not in self.objs and later[0] == "ok" and isinstance(later[1], Product) and id(later[1]) not in self.tag_of:
+                    self.pin(tag, later[1])
             if later[0] != "ok" or (tag in self.objs and later[1] is not self.objs[tag]):
                 self.bad("race-async-factory-overlap" if len(distinct) > 1 else "singleton-different-object",
                          f"{cmd}: a lookup after the race returned {self.tagname(later[1]) if later[0] == 'ok' else describe_exc(later[1])}, the first racer got {tag}", **witness)
@@ -686,6 +773,56 @@ class Engine:
                 self.bad("announce-race-duplicate" if n_ev > 1 else "announce-missing",
                          f"{cmd}: {n_ev} ResourceEvents were dispatched for one generation by {len(cmd['pre'])} concurrent lookups", **witness)
             self.dispatches.clear()
+        return events
+
+    async def do_sibling_seq(self, cmd: dict[str, Any]) -> list[Any]:
+        """inside the task of context `parent`: a short-lived child is entered, gets a resource of its own and is left again -
+        cleanly or with a raising teardown callback / a raising block (the task catches that and goes on) - and then the next
+        context is constructed with an implicit parent: it must be a child of `parent` and must see nothing of its dead sibling"""
+        from asphalt.core import Context
+
+        parent, tmp_cid, new_cid = cmd["parent"], cmd["tmp_cid"], cmd["cid"]
+        tag = ("val", cmd["vid"])
+        value = make_value(cmd["vtype"], tag)
+        self.pin(tag, value)
+        T = POOL[cmd["type"]]
+
+        class Boom(Exception):
+            pass
+
+        async def seq() -> Any:
+            tmp = Context()
+            self.ctx_objs[tmp_cid] = tmp
+            self.cid_of[id(tmp)] = tmp_cid
+            try:
+                async with tmp:
+                    tmp.add_resource(value, cmd["name"], [T])
+                    if cmd["how"] == "teardown_raises":
+                        def raiser() -> None:
+                            raise Boom("teardown of the short-lived sibling failed")
+
+                        tmp.add_teardown_callback(raiser)
+                    elif cmd["how"] == "block_raises":
+                        raise Boom("block of the short-lived sibling failed")
+            except (Boom, BaseExceptionGroup):
+                pass
+            return Context()
+
+        kind, new = await self.call_in(parent, seq)
+        if kind != "ok":
+            self.bad("lifecycle-sibling-seq", f"{cmd}: {describe_exc(new)}")
+            return []
+        self.model.construct(tmp_cid, parent)
+        _, events = self.model.add_resource(tmp_cid, tag, cmd["vtype"], cmd["name"], [cmd["type"]], None, None)
+        self.model.ctxs[tmp_cid].state = "closed"
+        self.ctx_objs[new_cid] = new
+        self.cid_of[id(new)] = new_cid
+        self.model.construct(new_cid, parent)
+        if new.parent is not self.ctx_objs[parent]:
+            self.bad("current-parent", f"{cmd}: the context created after its sibling was left (by {cmd['how']}) has parent context "
+                                       f"{self.cid_of.get(id(new.parent))}, expected {parent}")
+        self.inc("contexts_constructed", 2)
+        self.inc(f"sibling_sequences_{cmd['how']}")
         return events
 
     async def do_race_add(self, cmd: dict[str, Any], calls_before: dict[int, int]) -> list[Any]:
@@ -748,7 +885,7 @@ class Engine:
             later = await self.one_lookup(cid, "nowait", t, name, True)
             exp_later, _, _ = self.model.lookup(cid, t, name, True, True)
             if later[0] != "ok" or exp_later[0] != "ok" or (exp_later[1] in self.objs and later[1] is not self.objs[exp_later[1]]):
-                self.bad("singleton-different-object", f"{cmd}: after a generation racing with add_resource, ({POOL[t].__name__}, {name!r}) resolves to "
+                self.bad("singleton-different-object", f"{cmd}: after a generation racing with add_resource, ({tname(POOL[t])}, {name!r}) resolves to "
                                                        f"{self.tagname(later[1]) if later[0] == 'ok' else describe_exc(later[1])}, expected {exp_later[1]}")
         return events
 
@@ -761,7 +898,7 @@ class Engine:
         w = dict(p["weights"])
         if not open_:
             if constructed:
-                return {"op": "enter", "cid": rng.choice(constructed)}
+                return {"op": "enter", "cid": rng.choice(constructed), "in_component": rng.random() < 0.3}
             return {"op": "construct", "cid": self.fresh(), "parent": None, "how": "root"}
         if len(open_) + len(constructed) >= p["max_open"]:
             w["construct"] = 0
@@ -780,10 +917,18 @@ class Engine:
             if not deep:
                 return None
             parent = rng.choice(deep)
+            if rng.random() < 0.2:
+                free = [(t, n) for t in range(len(POOL)) for n in NAMES if (t, n) not in m.ctxs[parent].resources]
+                if not free:
+                    return None
+                ft, fn = rng.choice(free)
+                return {"op": "sibling_seq", "parent": parent, "tmp_cid": self.fresh(), "cid": self.fresh(), "vid": self.fresh(),
+                        "vtype": rng.randrange(Pool.N_CLASSES), "type": ft, "name": fn,
+                        "how": rng.choice(["clean", "teardown_raises", "block_raises"]), "then_enter": rng.random() < 0.7}
             return {"op": "construct", "cid": self.fresh(), "parent": parent, "how": rng.choice(["explicit", "implicit"]),
                     "then_enter": rng.random() < 0.7}
         if op == "enter":
-            return {"op": "enter", "cid": rng.choice(constructed), "late": True}
+            return {"op": "enter", "cid": rng.choice(constructed), "late": True, "in_component": rng.random() < 0.3}
         if op == "leave":
             return {"op": "leave", "cid": rng.choice(leaves)}
         cid = rng.choice(open_)
@@ -793,7 +938,7 @@ class Engine:
             r = rng.random()
             ntypes = rng.choice([0, 1, 1, 2, 2, 3])
             types: Any = rng.sample(range(len(POOL)), ntypes)
-            cmd = {"op": "add_resource", "cid": cid, "vid": self.fresh(), "vtype": rng.randrange(len(POOL)), "name": name, "types": types,
+            cmd = {"op": "add_resource", "cid": cid, "vid": self.fresh(), "vtype": rng.randrange(Pool.N_CLASSES), "name": name, "types": types,
                    "types_single": rng.random() < 0.5, "desc": rng.choice([None, "d1", "d2"]), "via": rng.choice(["method", "shortcut"]),
                    "teardown": rng.choice([None, "probe", "probe"])}
             if r < p["p_invalid"]:
@@ -810,7 +955,7 @@ class Engine:
             types = rng.sample(range(len(POOL)), ntypes)
             cmd = {"op": "add_factory", "cid": cid, "fid": self.fresh(), "name": name, "types": types, "types_single": rng.random() < 0.5,
                    "annotated": rng.random() < 0.3, "desc": rng.choice([None, "fd"]), "is_async": rng.random() < 0.5,
-                   "async_kind": rng.choice(["def", "def", "lambda", "object"]),
+                   "async_kind": rng.choice(["def", "def", "lambda", "object"]), "partial": rng.random() < 0.15,
                    "via": rng.choice(["method", "shortcut"])}
             if rng.random() < p["p_invalid"]:
                 cmd["types"] = rng.choice(["missing", "none_in_types"])
@@ -839,7 +984,8 @@ class Engine:
             free = [tt for tt in f.types if (tt, nm) not in mc.resources]
             return {"op": "race", "cid": cid, "type": t, "name": nm, "pre": pre,
                     "types": [t] + [rng.choice(free) for _ in pre[1:]],
-                    "yields": rng.randint(0, 3), "factory_async": f.is_async}
+                    "yields": rng.randint(0, 3), "factory_async": f.is_async, "fid": f.fid,
+                    "fail_first": f.is_async and rng.random() < 0.3}
         return {"op": "lookup", "cid": cid, "api": rng.choices(p["apis"], p.get("api_weights"))[0], "type": t, "name": nm,
                 "optional": rng.random() < 0.4, "yields": rng.randint(0, 2)}
 
@@ -864,8 +1010,8 @@ class Engine:
                         continue
                     n += 1
                     await self.step(cmd)
-                    if cmd["op"] == "construct" and cmd.get("then_enter") and not self.violations:
-                        await self.step({"op": "enter", "cid": cmd["cid"]})
+                    if cmd["op"] in ("construct", "sibling_seq") and cmd.get("then_enter") and not self.violations:
+                        await self.step({"op": "enter", "cid": cmd["cid"], "in_component": self.rng.random() < 0.3})
                 # leave everything, leaves first
                 while not self.violations:
                     open_ = self.open_ctxs()
